@@ -32,8 +32,8 @@ def chess_model(name, invariants, properties, q, t, **kw):
     return j
 
 
-MCQ = {"roots": "curated", "depth": 1, "sweep": 0}
-MCT = {"roots": "curated", "depth": 2, "sweep": 0}
+MCQ = {"roots": "curated", "depth": 1, "sweep": 0, "max_roots": 110}
+MCT = {"roots": "curated", "depth": 2, "sweep": 0, "max_roots": 70}
 
 
 def castle_gen(name, obs, checks, qmod, **kw):
